@@ -291,6 +291,9 @@ func (l *lsn) srvCaseOpt(tags string, hs []*honest, b []byte, s *session, spao b
 				break
 			}
 		}
+		if s != nil && s.uidOverride != nil {
+			uid = s.uidOverride
+		}
 		if len(replies) == 1 && s != nil {
 			if cs, ok := ownOpenReply(replies[0], s.s2c, uid); ok && len(cs) >= 1 {
 				verified = 1
@@ -517,13 +520,17 @@ func (l *lsn) round(r *lib.Rng, thorough bool, olds []*session, deep bool) {
 		l.srvCase("nt,honest,foreignlayout", []*honest{x, q}, x.b, s)
 	}
 	// AES-SIV with an empty plaintext never uses the second half of the key: a request
-	// sealed under a key that differs from the cookie's C2S key in the second half only.
-	// Recorded as observed (tag ctrhalf); the oracle of the listener does not judge the key.
+	// sealed under a key that differs from the cookie's C2S key in the second half only is
+	// answered.  A known finding, in a kind of its own (srv.ctrhalf); the honest packets
+	// in circulation are those of the session's real key, so the strict oracle rejects it.
 	{
 		k2 := clone(s.c2s)
 		k2[len(k2)-1] ^= 1
 		x := encodeHonest(r, r.Bytes(32), [][]byte{s.pool[0]}, nil, k2)
-		l.srvCase("nt,wrongkey,ctrhalf", []*honest{x, q}, x.b, s)
+		kind := l.kind
+		l.kind = "srv.ctrhalf"
+		l.srvCase("nt,wrongkey,ctrhalf", []*honest{q}, x.b, &session{s2c: s.s2c, c2s: s.c2s, algo: s.algo, uidOverride: x.uid})
+		l.kind = kind
 		k3 := clone(s.c2s)
 		k3[0] ^= 1
 		y := encodeHonest(r, r.Bytes(32), [][]byte{s.pool[0]}, nil, k3)
@@ -668,7 +675,7 @@ func replayExtra(c [3]string) {
 		replayClient()
 		return
 	}
-	if c[0] != "srv.ip" && c[0] != "srv.scion" && c[0] != "ke.real" {
+	if c[0] != "srv.ip" && c[0] != "srv.scion" && c[0] != "srv.ctrhalf" && c[0] != "ke.real" {
 		return
 	}
 	// the listeners have their own fresh server key: a recorded datagram cannot be
